@@ -49,8 +49,6 @@ type vfC20Step struct {
 	Pkt  *vfC20Pkt
 }
 
-var vfC20ErrDrained = errors.New("vfC20: script drained")
-
 type vfC20SeqInner struct {
 	k      *vfKit
 	caseID string
@@ -491,11 +489,4 @@ func TestVerifC20DemuxSeq(t *testing.T) {
 			k.Sample(map[string]any{"case": caseID, "metas": len(metas), "steps": len(steps), "script_head": sc, "diverted": in.sawDiv, "passed": in.sawPas})
 		}
 	}
-}
-
-func vfC20min(a, b int) int {
-	if a < b {
-		return a
-	}
-	return b
 }
